@@ -600,7 +600,10 @@ pub fn execute_c06(plan: &Plan) -> Outcome {
             };
             *n_attacks.entry(name.clone()).or_insert(0) += 1;
             let before = (dials(), udp_to_target(), log.lock().unwrap().tcp.len());
-            shoot_over(carrier, &wire, 1 + (i % 3) as usize, 50).await;
+            // (a Shadowsocks 2022 server may refuse a first flight that does not arrive in one read, whatever it carries: an attack
+            // that is always cut into pieces would be refused for that reason alone - two thirds of them arrive whole)
+            let pieces = if is_2022(&plan.config.cipher) && g.chance(67) { 1 } else { 1 + (i % 3) as usize };
+            shoot_over(carrier, &wire, pieces, 50).await;
             tokio::time::sleep(Duration::from_millis(50)).await;
             let after = (dials(), udp_to_target(), log.lock().unwrap().tcp.len());
             // a truncated valid handshake may legitimately have delivered complete units before the cut (it *is* authenticated);
